@@ -178,5 +178,5 @@ func cancelParts(tier string) []drv.Part {
 		pre, b = 3, 30*time.Minute
 	}
 	return []drv.Part{{Name: "cancel", Desc: fmt.Sprintf("context cancellation at every instant, <= %d preemptions", pre), Body: cancelBody(pre), MaxDev: pre, ShardLevels: 3, Budget: b, Env: []string{"GOMAXPROCS=1"}},
-		drv.RacePart(pre+1, pre, b, cancelBody(pre))}
+		drv.RacePart(8*pre, pre, b, cancelBody(pre))}
 }
